@@ -29,3 +29,4 @@ TECHNIQUE = 'runtime oracle: recovered group decisions + independent fit model (
 LEVEL_TEXT = ('Same exploration as C05 under the converse obligation: a layout passes only if some assignment consistent with the stream breaks no unforced group that the independent fit model says would have fitted '
               '(page/ribbon, smart look-ahead, forced break ahead). Plus random values printed at width = ribbon >= the length of their one-line form.')
 LEVEL_NOTE = 'Existential witness; the fit model is our reading of the rule on the un-normalised term; nothing is demanded below L.'
+ANCHORS = ['layout.best_layout', 'layout.smart_fitting_predicate', 'layout.fast_fitting_predicate', 'prettyprinter.sequence_of_docs']
